@@ -491,6 +491,8 @@ ROUND3 = {
 for _k, _v in ROUND3.items():
     CLAIMS[_k]["text"] += _v
 ROUND4 = {
+    'C23': " Parsing a rendering back may return None only where ast.literal_eval of the rendering does not itself yield the value (e.g. float('inf') inside a list); set() for the empty set must parse back.",
+    'C12': " The native world's deterministic fitness function takes the values 0.0, 1e-12, 5e-324, 0.5 and 2.0, so that 'covered' (exactly 0.0) and 'close to 0' differ in replays.",
     'C06': " Third part: every code object of the standard library's top-level modules (quick: 48 sampled files; thorough: all, ~8000 code objects) against the same oracles (single entry/exit, reachability, post-dominator CDG, root dependence).",
     'C08': " Markers are also placed in the wide-spaced spellings the patterns allow.",
     'C19': " The export check also runs the forward and backward statement minimizers (constant coverage function) before the export, including a five-statement chain whose last statement carries the oracle.",
